@@ -239,6 +239,64 @@ def method_cases(chk, drv, n):
                     chk.cov['traces_validated_against_impl'] += 1
 
 
+def method_sequences(chk, drv, n):
+    """several calls written through ONE EntityMethod object into one stream (longer argument lists first, then shorter ones, with a refused
+    call in between), then read back in order: each call must come back as written and the bytes must be the concatenation of the single
+    encodings -- writers may not carry anything over from one call to the next"""
+    from replay_unpack.core.entity_def.entity_description import EntityMethod, MethodArgument
+    rng = chk.rng
+    for _ in range(max(1, n // 10)):
+        trees = [gt.gen_type(rng, depth=2, writable=True, width=3) for _ in range(10)]
+        ad = codec.AliasDir('c16s')
+        try:
+            objs = ad.load(trees, rng)
+        finally:
+            ad.cleanup()
+        for _ in range(10):
+            k = rng.randint(1, 3)
+            idx = [rng.randrange(len(trees)) for _ in range(k)]
+            h = rng.choice([1, 2])
+            named = rng.random() < 0.5
+            m = EntityMethod('m', True, [MethodArgument(objs[i], name=('a%d' % j if named else None)) for j, i in enumerate(idx)], h)
+            tys = [strip(trees[i]) for i in idx]
+            calls = [[quiet(t, gt.gen_value(rng, t, big_ok=False)) for t in tys] for _ in range(rng.randint(2, 4))]
+            singles = []
+            for vals in calls:
+                one = io.BytesIO()
+                EntityMethod('m', True, [MethodArgument(objs[i], name=None) for i in idx], h).write_to_stream(one, *[py_of(t, v) for t, v in zip(tys, vals)])
+                singles.append(one.getvalue())
+            order = sorted(range(len(calls)), key=lambda i: -len(singles[i]))       # longest first
+            s = io.BytesIO()
+            problem = None
+            try:
+                for pos, ci in enumerate(order):
+                    m.write_to_stream(s, *[py_of(t, v) for t, v in zip(tys, calls[ci])])
+                    if pos == 0:
+                        try:
+                            m.write_to_stream(s, *([py_of(t, v) for t, v in zip(tys, calls[ci])] + [0]))      # refused: wrong arity
+                            problem = 'a call with one argument too many was accepted'
+                        except Exception:
+                            pass
+                data = s.getvalue()
+                if data != b''.join(singles[i] for i in order):
+                    problem = problem or 'the bytes of %d calls through one method object are not the concatenation of the single encodings (%d vs %d bytes)' % (
+                        len(order), len(data), sum(len(singles[i]) for i in order))
+                s.seek(0)
+                for ci in order:
+                    args, kwargs = m.create_from_stream(s)
+                    back = list(kwargs.values()) if named else args
+                    if [codec.canon_py(t, b) for t, b in zip(tys, back)] != [codec.canon_model(t, v) for t, v in zip(tys, calls[ci])]:
+                        problem = problem or 'call %d of the sequence reads back differently' % ci
+                if s.read() != b'':
+                    problem = problem or 'bytes are left after reading all calls back'
+            except Exception as e:
+                problem = problem or 'writing / reading a sequence of representable calls raised %s' % codec.err_class(e)
+            chk.count(('method-seq', json.dumps(tys), json.dumps(calls), h), len(calls) >= 2)
+            chk.dist('method-sequences')
+            if problem:
+                chk.report('method calls written one after the other: %s' % problem, {'kind': 'method-seq', 'tys': tys, 'calls': calls, 'h': h, 'order': order})
+
+
 def probes(chk, drv):
     """fixed probes incl. the recorded known finding and the 2^24 boundary"""
     from replay_unpack.core.entity_def.data_types import String, Blob
@@ -283,6 +341,7 @@ def run(chk, drv):
     probes(chk, drv)
     run_cases(chk, drv, gen_cases(chk, 400 if quick else 6000, 4 if quick else 8), 'gen')
     method_cases(chk, drv, 200 if quick else 4000)
+    method_sequences(chk, drv, 100 if quick else 2000)
     chk.assumptions.append('value domain = the Python types the readers produce (int, float, tuple, bytes, str, list, dict, None, (ip, port)); Float32 values are float32-representable; mailbox addresses are canonical dotted quads')
 
 
